@@ -445,7 +445,11 @@ def _worker(args):
                                             detail='%s in concurrent trial (batch rc=%s timeout=%s; alone: %d/10 hung, %d/10 crashed): %s' % (kind, rc, to, hung, crashed, (last_err or se)[-2000:]),
                                             trial=trial_text(0, t)))
                 else:
-                    out['inconclusive'].append('batch watchdog fired (rc=%s timeout=%s) but the suspect trial runs alone' % (rc, to))
+                    # a loaded machine, not a property of the code: run the batch once more before calling it inconclusive
+                    rc, so, se, to = run_thr(exe, text, logdir, cfg['timeout'])
+                    parsed, begun = parse_trials(so)
+                    if to or rc != 0:
+                        out['inconclusive'].append('batch watchdog fired twice (rc=%s timeout=%s) but the suspect trial runs alone' % (rc, to))
             for i, t in enumerate(batch):
                 if i not in parsed or not parsed[i]['done']:
                     continue
@@ -637,7 +641,7 @@ def _sys_worker(args):
     exe, metapath, seed, chunk, nprog, cap = args
     meta = json.load(open(metapath))
     rng = random.Random((seed * 48611 + chunk * 15485863) & 0xffffffff)
-    out = dict(programs=0, schedules=0, exhaustive_programs=0, viol=[], inconclusive=[], decisions=0, lin_nodes=0, max_sched=0, samples=[])
+    out = dict(programs=0, schedules=0, exhaustive_programs=0, viol=[], inconclusive=[], decisions=0, lin_nodes=0, lin_budget=0, max_sched=0, samples=[])
     logdir = tempfile.mkdtemp(prefix='tsanlog-', dir=os.path.join(VERIF, 'out'))
     try:
         for pi in range(nprog):
@@ -687,7 +691,7 @@ def _sys_worker(args):
                         out['viol'].append(dict(key='systematic|linearizability|' + r.get('why', 'no-order'), detail='lock-acquisition order %s: %s' % (chosen, r['detail']),
                                                 trial=trial_text(0, t, sched=chosen), history=r.get('history')))
                     elif r['verdict'] == 'budget':
-                        out['inconclusive'].append('linearizability search over budget in systematic mode')
+                        out['lin_budget'] += 1
                 if len(out['viol']) > 5:
                     break
             out['programs'] += 1
@@ -708,16 +712,20 @@ def run_systematic(seed, tier):
     metapath = os.path.join(os.path.dirname(exe), 'src', 'shapes.json')
     nprog, cap, nch = (4, 400, 16) if tier == "quick" else (12, 3000, 64)
     tasks = [(exe, metapath, seed, c, nprog, cap) for c in range(nch)]
-    tot = dict(programs=0, schedules=0, exhaustive_programs=0, decisions=0, lin_nodes=0, max_sched=0)
+    tot = dict(programs=0, schedules=0, exhaustive_programs=0, decisions=0, lin_nodes=0, lin_budget=0, max_sched=0)
     viol, inconc, samples = [], [], []
     with Pool(min(build.NCPU, len(tasks))) as pool:
         for r in pool.imap_unordered(_sys_worker, tasks):
-            for k in ('programs', 'schedules', 'exhaustive_programs', 'decisions', 'lin_nodes'):
+            for k in ('programs', 'schedules', 'exhaustive_programs', 'decisions', 'lin_nodes', 'lin_budget'):
                 tot[k] += r[k]
             tot['max_sched'] = max(tot['max_sched'], r['max_sched'])
             viol += r['viol']
             inconc += r['inconclusive']
             samples += r['samples'][:1]
+    # a search that ran out of budget decides nothing about that one schedule; it only makes the run inconclusive
+    # when it happens often enough to hollow out the enumeration
+    if tot['lin_budget'] > 0.05 * max(1, tot['schedules']):
+        inconc.append('linearizability search over budget on %d of %d enumerated schedules' % (tot['lin_budget'], tot['schedules']))
     return tot, viol, inconc, samples
 
 
